@@ -122,6 +122,8 @@ yaml.add_multi_representer(np.integer, numpy_int_representer)
 yaml.add_multi_representer(np.complexfloating, complex_representer)
 yaml.add_multi_representer(
     np.bool_, lambda dumper, data: dumper.represent_bool(bool(data)))
+yaml.add_multi_representer(
+    np.str_, lambda dumper, data: dumper.represent_str(str(data)))
 
 
 # numpy ufuncs can no longer be pickled as of numpy 1.20
